@@ -621,6 +621,26 @@ def _always_coerced(ctx, impl, var: str, bind, key: str) -> bool:
     the binding of the sub-dictionary to the exit stores a coerced value / a numeric constant there, or goes through the
     branch where the user did not supply the key, or records an error (the configuration is rejected)"""
     cfg = ctx.cfg(impl)
+    stores = set(_store_nodes(ctx, impl, var, key))
+    for n in cfg.nodes:
+        if any(call_tail(c) == "_err" for c in node_calls(n)):
+            stores.add(n)  # the configuration is rejected on this path
+    if not any(n for n in stores if not any(call_tail(c) == "_err" for c in node_calls(n))):
+        return False
+    absent = set()
+    for n in cfg.nodes:
+        if n.kind == "cond" and isinstance(n.ast, ast.Compare) and len(n.ast.ops) == 1 and isinstance(n.ast.ops[0], ast.In) and const_str(n.ast.left) == key:
+            absent |= {t for t, l in n.succ if l == "F"}
+        if n.kind == "cond" and isinstance(n.ast, ast.Compare) and len(n.ast.ops) == 1 and isinstance(n.ast.ops[0], ast.NotIn) and const_str(n.ast.left) == key:
+            absent |= {t for t, l in n.succ if l == "T"}
+    from ..util import no_exc
+    return cfg.path([bind], lambda x: x is cfg.exit, avoid=lambda x: x in stores or x in absent, edge_ok=no_exc, include_start=False) is None
+
+
+def _store_nodes(ctx, impl, var: str, key: str) -> Set[object]:
+    """CFG nodes of the validator that leave a coerced value / numeric constant under var[key] (directly, through a local
+    helper `h(name, ..)` that does `var[name] = <coerced>`, or as the body of a loop over a literal key table)"""
+    cfg = ctx.cfg(impl)
     stores = set()
     numeric = lambda v: isinstance(v, ast.Constant) and isinstance(v.value, (int, float)) and not isinstance(v.value, bool)
 
@@ -643,6 +663,16 @@ def _always_coerced(ctx, impl, var: str, bind, key: str) -> bool:
     for x in walk_no_defs(impl.node):
         if isinstance(x, ast.For) and isinstance(x.target, ast.Name) and isinstance(x.iter, (ast.Tuple, ast.List)):
             loop_keys.setdefault(x.target.id, set()).update({const_str(e) for e in x.iter.elts if const_str(e)})
+    # keys bound by a table loop `for name, lo in (("a", 0), ("b", 1)):`
+    table_loops: Dict[str, List[ast.For]] = {}
+    for x in walk_no_defs(impl.node):
+        if isinstance(x, ast.For) and isinstance(x.target, ast.Tuple) and isinstance(x.iter, (ast.Tuple, ast.List)) and x.iter.elts and all(isinstance(r, (ast.Tuple, ast.List)) for r in x.iter.elts):
+            for i, t in enumerate(x.target.elts):
+                if isinstance(t, ast.Name):
+                    ks = {const_str(r.elts[i]) for r in x.iter.elts if i < len(r.elts) and const_str(r.elts[i])}
+                    if ks:
+                        loop_keys.setdefault(t.id, set()).update(ks)
+                        table_loops.setdefault(t.id, []).append(x)
     # local helpers  def h(name, ...):  ...  var[name] = <coerced>
     helpers: Dict[str, int] = {}
     for ch in ctx.prog.all_funcs(impl.qual + "."):
@@ -666,8 +696,12 @@ def _always_coerced(ctx, impl, var: str, bind, key: str) -> bool:
         for c in node_calls(n):
             if isinstance(c.func, ast.Name) and c.func.id in helpers and len(c.args) > helpers[c.func.id] and const_str(c.args[helpers[c.func.id]]) == key:
                 stores.add(n)
-            if call_tail(c) == "_err":
-                stores.add(n)  # the configuration is rejected on this path
+            if isinstance(c.func, ast.Name) and c.func.id in helpers and len(c.args) > helpers[c.func.id] and isinstance(c.args[helpers[c.func.id]], ast.Name) \
+                    and key in loop_keys.get(c.args[helpers[c.func.id]].id, set()):
+                # h(name, lo) as a direct statement of a loop over a non-empty literal table: runs for every listed key
+                for lp in table_loops.get(c.args[helpers[c.func.id]].id, []) + [x for x in walk_no_defs(impl.node) if isinstance(x, ast.For) and isinstance(x.target, ast.Name) and x.target.id == c.args[helpers[c.func.id]].id]:
+                    if any(isinstance(st, ast.Expr) and st.value is c for st in lp.body):
+                        stores |= set(cfg.nodes_of(lp))
     # `for k in ("a", "b"): var[k] = coerce(...)` as a direct statement of the loop body: the loop over a non-empty literal
     # runs for every listed key, so the loop head itself stands for the store
     for x in walk_no_defs(impl.node):
@@ -676,16 +710,7 @@ def _always_coerced(ctx, impl, var: str, bind, key: str) -> bool:
                 if isinstance(st, ast.Assign) and coercing(st.value, local_coerced) and any(
                         isinstance(t, ast.Subscript) and isinstance(t.value, ast.Name) and t.value.id == var and isinstance(t.slice, ast.Name) and t.slice.id == x.target.id for t in st.targets):
                     stores |= set(cfg.nodes_of(x))
-    if not any(n for n in stores if not any(call_tail(c) == "_err" for c in node_calls(n))):
-        return False
-    absent = set()
-    for n in cfg.nodes:
-        if n.kind == "cond" and isinstance(n.ast, ast.Compare) and len(n.ast.ops) == 1 and isinstance(n.ast.ops[0], ast.In) and const_str(n.ast.left) == key:
-            absent |= {t for t, l in n.succ if l == "F"}
-        if n.kind == "cond" and isinstance(n.ast, ast.Compare) and len(n.ast.ops) == 1 and isinstance(n.ast.ops[0], ast.NotIn) and const_str(n.ast.left) == key:
-            absent |= {t for t, l in n.succ if l == "T"}
-    from ..util import no_exc
-    return cfg.path([bind], lambda x: x is cfg.exit, avoid=lambda x: x in stores or x in absent, edge_ok=no_exc, include_start=False) is None
+    return stores
 
 
 def rule_contract_nested(ctx) -> None:
@@ -800,6 +825,61 @@ def rule_contract_nested(ctx) -> None:
                           f"`{src(x)[:60]}` can take its value from {path}.{k}, which the validator leaves as the user wrote it (it normalises another key of that section): "
                           f"an accepted config such as {{'{path.split('.')[0]}': {{'{path.split('.')[1]}': {{'{k}': '10m'}}}}}} makes the turn raise, and an out-of-range value is used unchecked")
     ctx.floor("C14.CONTRACT", "numeric uses of nested configuration values in the engine", n_uses, 4)
+
+
+def rule_verdict_reads_normalised(ctx) -> None:
+    """"every accepted configuration satisfies the documented ranges ... same verdict" for every spelling of a value: a range
+    test that decides the verdict looks at the value the validator keeps.  A test that orders a RAW read of section[key]
+    (`x = sec.get("k")` ... `if isinstance(x, int) and x < other: _err`) while the normalising store of that key
+    (`sec["k"] = coerce(..)`) comes later sees "10" / 10.0 where the accepted configuration holds 10: the test is skipped
+    or mis-typed for those spellings and an out-of-range value is accepted."""
+    impl = ctx.func(IMPL)
+    cfg = ctx.cfg(impl)
+    rd = ctx.rd(impl)
+    subs = _validator_subdicts(ctx, impl)
+    n_tests = 0
+    n_reads = 0
+    for n in cfg.nodes:
+        if n.kind != "cond":
+            continue
+        # an error verdict hangs on this test
+        tsucc = [t for t, l in n.succ if l == "T"]
+        if not tsucc:
+            continue
+        st = ctx.prog.parents(impl.node).get(id(n.ast))
+        owner = st
+        while owner is not None and not isinstance(owner, (ast.If, ast.IfExp, ast.While)):
+            owner = ctx.prog.parents(impl.node).get(id(owner))
+        if not isinstance(owner, ast.If) or not any(isinstance(c, ast.Call) and call_tail(c) == "_err" for b in owner.body for c in ast.walk(b)):
+            continue
+        for cmp in [x for x in ast.walk(n.ast) if isinstance(x, ast.Compare) and any(isinstance(o, (ast.Lt, ast.LtE, ast.Gt, ast.GtE)) for o in x.ops)]:
+            n_tests += 1
+            for side in [cmp.left] + list(cmp.comparators):
+                if not isinstance(side, ast.Name):
+                    continue
+                for d in rd.reaching(side.id, n):
+                    v = d.value
+                    if v is None or d.kind != "assign":
+                        continue
+                    read = None
+                    if isinstance(v, ast.Call) and call_tail(v) == "get" and isinstance(v.func, ast.Attribute) and isinstance(v.func.value, ast.Name) and v.func.value.id in subs and v.args and const_str(v.args[0]):
+                        read = (v.func.value.id, const_str(v.args[0]))
+                    elif isinstance(v, ast.Subscript) and isinstance(v.value, ast.Name) and v.value.id in subs and const_str(v.slice):
+                        read = (v.value.id, const_str(v.slice))
+                    if read is None:
+                        continue
+                    n_reads += 1
+                    var, k = read
+                    stores = _store_nodes(ctx, impl, var, k)
+                    later = [sn for sn in stores if sn in cfg.reach([d.node], include_start=False)]
+                    path = subs[var][0]
+                    ctx.check(not later, "C14.RANGE", ctx.okey(f"{impl.qual}/verdict-reads-normalised:{path}.{k}"), impl.loc(cmp),
+                              f"`{src(cmp)[:50]}` tests {path}.{k} as the validator keeps it (read after its normalisation)",
+                              (f"`{src(cmp)[:50]}` orders `{side.id}`, read from {path}.{k} at line {getattr(d.node.ast, 'lineno', '?')} BEFORE the validator normalises that key "
+                               f"(line {getattr(later[0].ast, 'lineno', '?')}): for a spelling the coercion accepts (\"10\", 10.0) the test sees the raw value, is skipped or mis-typed, and a configuration "
+                               "outside the documented range is accepted - while the int spelling of the same value is rejected") if later else "")
+    ctx.floor("C14.RANGE", "ordering tests that decide an error verdict in the validator", n_tests, 40)
+    ctx.floor("C14.RANGE", "of those, tests on a value read back from a section", n_reads, 1)
 
 
 def _validator_minimum(ctx, leaf: str) -> Tuple[Optional[int], int]:
@@ -926,6 +1006,7 @@ def run(ctx) -> None:
     rule_cli_forwarding(ctx)
     rule_det(ctx)
     rule_range(ctx)
+    rule_verdict_reads_normalised(ctx)
     rule_total(ctx)
     rule_contract(ctx)
     rule_contract_nested(ctx)
